@@ -562,5 +562,65 @@ func runC10(c *mc.Ctx) {
 			}
 		})
 	}
+	// large blocks (index arithmetic beyond one byte, long dependency chains): 300 transactions in
+	// structured spend graphs, in topological, reversed and interleaved block order
+	{
+		n := 300
+		mk := func(shape string) []c10BTx {
+			txs := make([]c10BTx, n)
+			for i := range txs {
+				switch shape {
+				case "chain": // tx i spends output 0 of tx i-1; every third one pays the watched key
+					txs[i] = c10BTx{Ins: []string{"E0"}, Outs: "U"}
+					if i > 0 {
+						txs[i].Ins = []string{fmt.Sprintf("%d.0", i-1)}
+					}
+					if i%3 == 0 {
+						txs[i].Outs = "W"
+					}
+				case "fan": // tx 0 pays the watched key twice; everything else spends tx 0 or an external output
+					txs[i] = c10BTx{Ins: []string{"E0"}, Outs: "U"}
+					if i == 0 {
+						txs[i].Outs = "WW"
+					} else if i%2 == 1 {
+						txs[i].Ins = []string{fmt.Sprintf("0.%d", i%4/2)}
+					}
+				case "late": // only the LAST transaction (topologically) is watched, spenders listed elsewhere
+					txs[i] = c10BTx{Ins: []string{"E0"}, Outs: "U"}
+					if i == n-2 {
+						txs[i].Outs = "UW"
+					}
+					if i == n-1 {
+						txs[i].Ins = []string{fmt.Sprintf("%d.1", n-2), "E1"}
+					}
+				}
+			}
+			return txs
+		}
+		orders := map[string][]int{}
+		topo, rev, inter := make([]int, n), make([]int, n), make([]int, n)
+		for i := 0; i < n; i++ {
+			topo[i], rev[i] = i, n-1-i
+			if i%2 == 0 {
+				inter[i] = i / 2
+			} else {
+				inter[i] = n - 1 - i/2
+			}
+		}
+		orders["topological"], orders["reversed"], orders["interleaved"] = topo, rev, inter
+		var big []c10Block
+		for _, shape := range []string{"chain", "fan", "late"} {
+			for _, on := range []string{"topological", "reversed", "interleaved"} {
+				for fl := 0; fl < 3; fl++ {
+					big = append(big, c10Block{Txs: mk(shape), Order: orders[on], Flags: fl, Geom: "mid"})
+				}
+			}
+		}
+		c.Space("blocks: 300 transactions x {chain, fan, late} x {topological, reversed, interleaved} x 3 flags", int64(len(big)))
+		c.ParFor(int64(len(big)), func(w *mc.W, i int64) {
+			w.State()
+			c10EvalBlock(w, big[i])
+		})
+	}
 	c.Sample("block", c10Block{Txs: []c10BTx{{Ins: []string{"E0"}, Outs: "W"}, {Ins: []string{"0.0"}, Outs: "U"}}, Order: []int{1, 0}, Flags: 1, Geom: "mid"})
 }
